@@ -344,6 +344,29 @@ pub fn libgen(root: &Path, main_rel: &str, incdirs: &[String], w: &mut dyn Write
     }
 }
 
+/// the library entry point on the paths exactly as spelled by the caller (no canonicalisation
+/// here): names and content hashes of what it returns
+pub fn libgen_spelled(main: &str, incdirs: &[String], w: &mut dyn Write) {
+    let include_paths: Vec<PathBuf> = incdirs.iter().map(PathBuf::from).collect();
+    let main = PathBuf::from(main);
+    let r = quiet(|| idlc::Language::Rust.generate(&include_paths, &main).map_err(|e| e.to_string()));
+    match r {
+        Ok(Ok(desc)) => {
+            writeln!(w, "lib ok").unwrap();
+            let mut names: Vec<String> = desc
+                .iter()
+                .map(|(p, c)| format!("{}:{:016x}", p.file_name().map(|x| x.to_string_lossy().into_owned()).unwrap_or_default(), fnv(c)))
+                .collect();
+            names.sort();
+            for n in names {
+                writeln!(w, "libfile {n}").unwrap();
+            }
+        }
+        Ok(Err(_)) => writeln!(w, "lib err").unwrap(),
+        Err(()) => writeln!(w, "lib panic").unwrap(),
+    }
+}
+
 fn fnv(s: &str) -> u64 {
     let mut h: u64 = 0xcbf29ce484222325;
     for b in s.bytes() {
@@ -408,6 +431,7 @@ fn dispatch(args: &[String], w: &mut dyn Write) {
             facts(&args[1], args[2] == "1", Path::new(&args[3]), &args[4], &args[5..], w);
         }
         Some("gen") if args.len() >= 4 => gen(args[1] == "1", Path::new(&args[2]), &args[3], &args[4..], w),
+        Some("libgen2") if args.len() >= 2 => libgen_spelled(&args[1], &args[2..], w),
         Some("libgen") if args.len() >= 3 => libgen(Path::new(&args[1]), &args[2], &args[3..], w),
         Some("pst") if args.len() >= 2 => pst::dump(Path::new(&args[1]), w),
         Some("tables") => tables::emit(w),
